@@ -29,7 +29,7 @@ Proof. vm_compute. reflexivity. Qed.
 (* the JSON hypotheses are satisfiable on the real decoder table *)
 Example sample_jok : jok OtlpSchema OtlpJsonDecoders m_common_v1_AnyValue sample = true.
 Proof. vm_compute. reflexivity. Qed.
-Example sample_migrate : migrate OtlpSchema m_common_v1_AnyValue sample = sample.
+Example sample_no_deprecated : no_deprecated OtlpSchema m_common_v1_AnyValue sample = true.
 Proof. vm_compute. reflexivity. Qed.
 Example sample_json_roundtrip :
   of_json OtlpSchema OtlpJsonDecoders OtlpEnums m_common_v1_AnyValue (to_json OtlpSchema m_common_v1_AnyValue sample) = Some sample.
@@ -44,7 +44,7 @@ Definition logs_sample : pv :=
 Example logs_sample_ok :
   canonical OtlpSchema m_collector_logs_v1_ExportLogsServiceRequest logs_sample = true
   /\ jok OtlpSchema OtlpJsonDecoders m_collector_logs_v1_ExportLogsServiceRequest logs_sample = true
-  /\ migrate OtlpSchema m_collector_logs_v1_ExportLogsServiceRequest logs_sample = logs_sample
+  /\ no_deprecated OtlpSchema m_collector_logs_v1_ExportLogsServiceRequest logs_sample = true
   /\ of_json OtlpSchema OtlpJsonDecoders OtlpEnums m_collector_logs_v1_ExportLogsServiceRequest
              (to_json OtlpSchema m_collector_logs_v1_ExportLogsServiceRequest logs_sample) = Some logs_sample.
 Proof. repeat split; vm_compute; reflexivity. Qed.
@@ -103,4 +103,19 @@ Example reordered_decode :
 Proof. vm_compute. reflexivity. Qed.
 Example truncated_rejected :
   decode OtlpSchema m_metrics_v1_SummaryDataPoint_ValueAtQuantile (hex "1100000000"%string) = None.
+Proof. vm_compute. reflexivity. Qed.
+
+(* a metric object with two data alternatives: the later one wins, on the real schema and decoder table *)
+Example metric_two_data_kinds :
+  of_json OtlpSchema OtlpJsonDecoders OtlpEnums m_metrics_v1_Metric
+          (JObj [("gauge"%string, JObj [("dataPoints"%string, JArr [JObj []])]); ("sum"%string, JObj [("isMonotonic"%string, JBool true)])])
+  = of_json OtlpSchema OtlpJsonDecoders OtlpEnums m_metrics_v1_Metric
+          (JObj [("sum"%string, JObj [("isMonotonic"%string, JBool true)])]).
+Proof. vm_compute. reflexivity. Qed.
+Example metric_two_data_kinds_is_sum :
+  match of_json OtlpSchema OtlpJsonDecoders OtlpEnums m_metrics_v1_Metric
+          (JObj [("gauge"%string, JObj []); ("sum"%string, JObj [("isMonotonic"%string, JBool true)])]) with
+  | Some (VMsg fs) => existsb (fun v => match v with VSome (VMsg _) => true | _ => false end) fs
+  | _ => false
+  end = true.
 Proof. vm_compute. reflexivity. Qed.
